@@ -102,7 +102,10 @@ def spin_loops(func):
         if not body_ok:
             continue
         t = st.test
-        if isinstance(t, ast.UnaryOp) and isinstance(t.op, ast.Not):
+        bound = liveness_bound(t)
+        if bound is not None:
+            out.append((st, bound[0], True))
+        elif isinstance(t, ast.UnaryOp) and isinstance(t.op, ast.Not):
             d = dotted(t.operand)
             if d and d.startswith("self."):
                 out.append((st, d, False))
@@ -110,6 +113,32 @@ def spin_loops(func):
             d = dotted(t)
             if d and d.startswith("self."):
                 out.append((st, d, True))
+    return out
+
+
+def liveness_bound(test):
+    """(flag, thread attribute) for `self.F and self.T.is_alive()` (either order): a wait for the flag that also ends when
+    the thread that should lower it has ended."""
+    if isinstance(test, ast.BoolOp) and isinstance(test.op, ast.And) and len(test.values) == 2:
+        flags = [dotted(v) for v in test.values if dotted(v) and dotted(v).startswith("self.")]
+        alive = [dotted(v.func.value) for v in test.values if isinstance(v, ast.Call) and isinstance(v.func, ast.Attribute) and v.func.attr == "is_alive" and not v.args]
+        if len(flags) == 1 and len(alive) == 1 and alive[0]:
+            return flags[0], alive[0]
+    return None
+
+
+def thread_attributes(repo, cls):
+    """{attribute that holds a Thread object: name of its target method}."""
+    out = {}
+    for c in cls.mro:
+        for m in c.methods.values():
+            for st in rules.func_stmts(m.node):
+                if isinstance(st, ast.Assign) and isinstance(st.value, ast.Call) and (call_name(st.value) or "") == "threading.Thread":
+                    tgt = next((k.value for k in st.value.keywords if k.arg == "target"), None)
+                    d = dotted(tgt) if tgt is not None else None
+                    for t in st.targets:
+                        if dotted(t) and dotted(t).startswith("self.") and d and d.startswith("self."):
+                            out[dotted(t)] = d.split(".", 1)[1]
     return out
 
 
@@ -172,6 +201,26 @@ def check_spin_handshakes(ctx):
                 owners = [f for f in targets.values() if assigns_flag(f, flag, exit_val, repo)]
                 q = f"{cname}.{mname}"
                 key = f"spin {flag}"
+                bound = liveness_bound(loop.test)
+                if bound is not None:
+                    # the wait ends with the thread, whichever way the thread ends: what remains is that the waited-for
+                    # thread is the one that answers the flag, and that the waiter leaves the flag lowered for the next thread
+                    tattr = thread_attributes(repo, cls).get(bound[1])
+                    ok = tattr is not None and any(T.name == tattr or tattr.endswith(T.name) for T in owners + [f for f in targets.values() if _reads_flag(f, flag, repo)])
+                    ctx.ob("C09.W2", q, ok, f"the wait for {flag} also ends when the thread in {bound[1]} has ended, and that thread is the one the flag stops" if ok else
+                           f"`{norm(loop.test)}` is bounded by the liveness of {bound[1]}, which is not the thread that examines {flag}", key=key + " bounded-by", where=meth.where)
+                    mcfg = cfg_of(mnode)
+                    loop_node = next(n for n in mcfg.nodes if n.kind == "test" and n.ast is loop.test)
+                    lowers = [n for n in mcfg.real_nodes() if isinstance(n.ast, ast.Assign) and any(dotted(t) == flag for t in n.ast.targets) and rules.literal(mnode, n.ast.value) == (True, False)]
+                    after = rules.branch_marker(loop_node, "false")
+                    lowered = bool(lowers) and not mcfg.path_exists(after, mcfg.exit, avoid=lowers, no_exc=True)
+                    ctx.ob("C09.W2", q, lowered, f"{mname}() leaves {flag} lowered after the wait" if lowered else
+                           f"after the liveness-bounded wait {mname}() can return with {flag} still raised (the thread may have ended without lowering it): the next thread started by enable() sees a stop request and ends at once - the endpoint never accepts/connects again",
+                           key=key + " lowered-after-wait", where=meth.where)
+                    for T in owners:
+                        ctx.touch(T)
+                        ctx.ob("C09.W2", q, True, f"{T.qualname} need not lower {flag} on every exit: the waiter does not depend on it", key=key + " by " + T.name, where=meth.where)
+                    continue
                 if not owners:
                     ctx.ob("C09.W2", q, False, f"`{norm(loop.test)}` spins on {flag} but no thread function of the class ever sets it to {exit_val}: the caller never returns", key=key, where=meth.where)
                     continue
@@ -202,6 +251,15 @@ def check_spin_handshakes(ctx):
                     risky = [n for n in tcfg.real_nodes() if not n.in_try and n.calls and not any(n is s for s in sets) and any(tcfg.path_exists(n, s) for s in sets) and _is_listener_or_io(n)]
                     ctx.ob("C09.W2", q, not risky, f"listener calls before the reset of {flag} in {T.qualname} are contained" if not risky else
                            f"`{risky[0].text()}` in {T.qualname} is outside a try: if it raises the thread ends without resetting {flag}", key=key + " contained " + T.name, where=meth.where)
+                    # the waiter closes a socket under the thread before it waits: what the thread does with that socket
+                    # outside a try raises (EBADF) and ends the thread with the flag still raised
+                    closed = {norm(c.func.value) for c in calls_in(mnode) if isinstance(c.func, ast.Attribute) and c.func.attr == "close" and norm(c.func.value).startswith("self.")
+                              and c.lineno < loop.lineno}
+                    hit = [n for n in tcfg.real_nodes() if closed and not n.in_try and not any(n is s for s in sets) and any(tcfg.path_exists(n, s) for s in sets)
+                           and any(isinstance(c.func, ast.Attribute) and norm(c.func.value) in closed and c.func.attr not in ("close",) for c in n.calls)]
+                    ctx.ob("C09.W2", q, not hit, f"{T.qualname} uses nothing outside a try that {mname}() closes under it" if not hit else
+                           f"{mname}() closes {sorted(closed)[0]} and then waits for {flag}; `{hit[0].text()[:70]}` in {T.qualname} is outside a try: woken on the closed socket it raises, "
+                           f"the thread ends with {flag} still raised and {mname}() never returns", key=key + " closed-resource " + T.name, where=meth.where)
                 # waiter side: early returns before the spin must test the same flag
                 if exit_val is False:
                     mcfg = cfg_of(mnode)
@@ -216,6 +274,21 @@ def check_spin_handshakes(ctx):
                                f"{mname}() returns early under `{[norm(t) for t, _ in conds]}`, not under a test of {flag}: it can return while the thread is still running, "
                                "leaving the stop request pending and the connection state stale", key=key + " early-return", where=meth.where)
     ctx.floor("spin-wait loops", n_loops, 5)
+
+
+def _reads_flag(func, flag, repo, depth=0) -> bool:
+    """The thread function (or a private helper it calls) tests the flag."""
+    for x in ast.walk(func.node):
+        if isinstance(x, (ast.While, ast.If)) and any(dotted(a) == flag for a in ast.walk(x.test) if isinstance(a, ast.Attribute)):
+            return True
+    if depth < 2 and func.cls is not None:
+        for c in calls_in(func.node):
+            cn = call_name(c) or ""
+            if cn.startswith("self.__") and cn.count(".") == 1:  # class-private helpers of the thread function only
+                callee = func.cls.find_method(cn.split(".")[1])
+                if callee is not None and callee is not func and _reads_flag(callee, flag, repo, depth + 1):
+                    return True
+    return False
 
 
 def _always_sets(func, flag, value) -> bool:
@@ -568,6 +641,18 @@ def check_bytequeue_wait(ctx, rule):
     ctx.ob(rule, ap.qualname, ok, "append extends the buffer and notifies under the same condition" if ok else "append does not extend+notify under the condition: a blocked reader is not woken by new bytes", where=ap.where)
 
 
+def _unbounded_waiters(repo, cname, thread_func) -> list:
+    """Spin waits in the class cone on a flag this thread function answers that do not also end with the thread."""
+    out = []
+    for c in repo.cls(cname).mro:
+        for m in c.methods.values():
+            node, _ = normal.normalise(repo, m, aliases=False, comps=False, ifexp=False)
+            for loop, flag, cont_val in spin_loops(node):
+                if cont_val and liveness_bound(loop.test) is None and (assigns_flag(thread_func, flag, False, repo) or _reads_flag(thread_func, flag, repo)):
+                    out.append((m.qualname, flag))
+    return out
+
+
 def check_definite_assignment(ctx):
     repo = ctx.repo
     for cname, mname in (("TcpServerConnection", "__server_thread"), ("TcpClientConnection", "__connect_thread"), ("TcpClientConnection", "__connect"), ("TcpConnection", "__receiver_thread_read_data")):
@@ -578,6 +663,10 @@ def check_definite_assignment(ctx):
             if var == "_":
                 continue
             bad = possibly_undefined(cfg, f.node, var)
+            if bad and not _unbounded_waiters(repo, cname, f):
+                # the thread ends on the UnboundLocalError, but every wait for it in this class also ends with the thread
+                ctx.ob("C09.D1", f.qualname, True, f"local `{var}` can be unbound when the guarded statement raises; the thread then ends, and no wait in {cname} depends on it staying alive", key="unbound " + var, where=f.where)
+                continue
             ctx.ob("C09.D1", f.qualname, not bad, f"local `{var}` is assigned before every read" if not bad else
                    f"local `{var}` can be read before assignment at `{bad[0].text()}` (when the guarded statement raises on the first pass): UnboundLocalError ends the thread with its stop flag still set, and disable() spins for ever",
                    key="unbound " + var, where=f.where)
@@ -632,7 +721,7 @@ def check_idle_and_disable(ctx):
         disc = _nodes_calling(cfg, lambda x: x == "self.disconnect")
         ok = bool(disc) and bool(lowers) and not cfg.path_exists(lowers[0], cfg.exit, avoid=disc, no_exc=True)
         ctx.ob("C09.W2", q, ok, "disable() always closes the open link" if ok else "there is a path through disable() of an enabled connection that does not call disconnect(): the link stays up, NOT CONNECTED is never reported", key="disconnects", where=d.where)
-        raises = [n for n in cfg.real_nodes() if isinstance(n.ast, ast.Assign) and any(dotted(t) == stop_flag for t in n.ast.targets)]
+        raises = [n for n in cfg.real_nodes() if isinstance(n.ast, ast.Assign) and any(dotted(t) == stop_flag for t in n.ast.targets) and rules.literal(dn, n.ast.value) != (True, False)]
         ok = len(raises) == 1 and rules.literal(dn, raises[0].ast.value) == (True, True) and (f"{thread}.is_alive()", True) in cnd.facts(cfg, raises[0])
         ctx.ob("C09.W2", q, ok, "the stop flag is raised exactly for a live thread" if ok else
                f"{stop_flag} is not raised (to True) under `{thread}.is_alive()`: without a live thread nobody lowers it again and disable() spins for ever; with one that is not told to stop, connecting goes on after disable()", key="raises-stop-for-live-thread", where=d.where)
